@@ -116,6 +116,17 @@ def texts_for(cname):
     return t
 
 
+def long_text(cname, n):
+    """n characters in lines of 80, with the codec's probe character."""
+    c = probe_char(cname) or 'y'
+    line = 'long ' + c + 'x' * 73 + '\n'
+    return (line * (n // 80 + 1))[:n]
+
+
+LONG_SIZES_Q = [300001]
+LONG_SIZES_T = [150001, 300001, 1100001]
+
+
 def check_helpers(sp, cname):
     v = []
     for kind in ('unix', 'dos'):
@@ -269,6 +280,24 @@ def run_unit(cname, tier):
                                 'le': kind, 'indent': indent, 'text': text,
                                 'container': container})
                         acc.outcome('ok' if not viols else 'violation')
+        # long content under every spelling (size x spelling together)
+        for n in (LONG_SIZES_Q if tier == 'quick' else LONG_SIZES_T):
+            for container in ([False, True] if tier == 'thorough'
+                              else [False]):
+                text = long_text(cname, n)
+                viols = check_roundtrip(sp, cname, 'unix', 4, text,
+                                        container)
+                acc.evals += 1
+                acc.states += 1
+                acc.transitions += 3
+                acc.validated += 1
+                if nt:
+                    acc.nontrivial += 1
+                for key, msg in viols:
+                    acc.violation(key + ':long', msg[:600], {
+                        'kind': 'rt-long', 'sp': sp, 'cname': cname,
+                        'n': n, 'container': container})
+                acc.outcome('ok' if not viols else 'violation')
     acc.sample({'codec': cname, 'spellings': sps[:8]}, 1)
     return acc
 
@@ -280,6 +309,11 @@ def replay(payload):
         viols = check_roundtrip(payload['sp'], payload['cname'],
                                 payload['le'], payload['indent'],
                                 payload['text'], payload['container'])
+    elif payload.get('kind') == 'rt-long':
+        viols = check_roundtrip(payload['sp'], payload['cname'], 'unix', 4,
+                                long_text(payload['cname'], payload['n']),
+                                payload['container'])
+        return [{'key': k + ':long', 'msg': m[:600]} for k, m in viols]
     else:
         viols = []
     return [{'key': k, 'msg': m} for k, m in viols]
